@@ -57,6 +57,8 @@ type Result struct {
 	Streams     int           `json:"streams"`
 	SchedHash   string        `json:"sched_hash"`
 	Switches    int           `json:"switches"`
+	SyncPoints  int           `json:"sync_points"`
+	SyncYields  int           `json:"sync_yields"`
 	FakeNS      int64         `json:"fake_ns"`
 	WallMS      int64         `json:"wall_ms"`
 	PoolReused  int           `json:"pool_reused"`
@@ -153,6 +155,7 @@ func runPhase(t *testing.T, sc *Scenario, tasks [][]Call, faults bool, trivial b
 			st := simrt.NewStream(fmt.Sprintf("%s.client%d", phase, ti))
 			go func(ti int, mine []*CallRecord) {
 				defer cwg.Done()
+				defer simrt.Bind(st)()
 				for _, rec := range mine {
 					st.Yield()
 					func() {
@@ -283,6 +286,7 @@ func runScenario(t *testing.T, sc Scenario) Result {
 			res.TempFiles += sd.TempFiles
 		}
 	}
+	res.SyncPoints, res.SyncYields = int(simrt.SyncPoints.Load()), int(simrt.SyncYields.Load())
 	simrt.Install(nil)
 	res.WallMS = time.Since(t0).Milliseconds()
 	return res
